@@ -94,6 +94,14 @@ Definition sub_return_point (b : block) : option nat := match b_next b with r ::
 Inductive outcome (A : Type) := Done (a : A) | Exn (e : string) | OutOfFuel.
 Arguments Done {A} a. Arguments Exn {A} e. Arguments OutOfFuel {A}.
 
+(* the bz/bnz at position k jumps to the line that follows it (len(exit_instr.next) > 1 for a block with a
+   single successor): decided on the jump target, independently of the length of the program *)
+Definition branch_to_next (p : prog) (br : instr) (k : nat) : bool :=
+  match br with
+  | IBZ l | IBNZ l => match find_label p l with Some t => Nat.eqb t (S k) | None => false end
+  | _ => false
+  end.
+
 Section Domain.
   Variable T : Type.
   Variable t_eqb : T -> T -> bool.
@@ -191,11 +199,12 @@ Section Domain.
                     let is_bz := match br with IBZ _ => true | _ => false end in
                     match b_next pred with
                     | [j] =>
-                        (* single successor: the branch is the last instruction, or it targets the next line *)
-                        match ins_next (fn_prog f) (List.last (b_ins pred) 0) with
-                        | Some (_ :: _ :: _) => Some univ
-                        | _ => if Nat.eqb succ j then Some (if is_bz then fv else tv) else Some univ
-                        end
+                        (* single successor: the branch targets the next line (jump and fall-through coincide:
+                           no constraint), or it is the last instruction of the contract (only the jump edge).
+                           The test does not depend on the length of fn_prog (construct_function appends
+                           instructions): it looks at the jump target only. *)
+                        if branch_to_next (fn_prog f) br (List.last (b_ins pred) 0) then Some univ
+                        else if Nat.eqb succ j then Some (if is_bz then fv else tv) else Some univ
                     | d :: j :: _ =>
                         (* the jump assignment is executed first, the default one second (may overwrite) *)
                         if Nat.eqb succ d then Some (if is_bz then tv else fv)
